@@ -228,7 +228,10 @@ alloc_failed:
 
 static bool is_localhost(const struct sockaddr_storage *addr)
 {
-	if (addr->ss_family == AF_INET) {
+	if (addr->ss_family == AF_UNIX) {
+		/* the local socket: its address is no IPv6 address */
+		return true;
+	} else if (addr->ss_family == AF_INET) {
 		static const uint8_t ipv4_localhost_bytes[] =
 		    {0x7f, 0, 0, 1};
 		const struct sockaddr_in *s = (const struct sockaddr_in *)addr;
